@@ -281,6 +281,30 @@ def oracle(sc, res, obs):
     return None
 
 
+def add_failure_case(fname):
+    """`git add` of a configured file FAILS (whatever the file is called): the run must stop there — no commit, no tag, no push, exit non-zero"""
+    with sandbox.Project("c10a") as pr:
+        key = json.dumps(fname)
+        pr.write_text("bumpver.toml", '[bumpver]\ncurrent_version = "1.2.3"\nversion_pattern = "MAJOR.MINOR.PATCH"\ncommit = true\ntag = true\npush = false\n'
+                      '[bumpver.file_patterns]\n"bumpver.toml" = [\'current_version = "{version}"\']\n%s = ["{version}"]\n' % key)
+        pr.write_text(fname, "v 1.2.3\n")
+        pr.add_fake_vcs("git")
+        pr.fake_set("branches", "* main 1a2b3c4 msg\n")
+        pr.fake_set("tags", "1.2.3\n")
+        pr.fake_set("tags_branch", "1.2.3\n")
+        pr.fake_set("fail_cmd", fname)                  # only the `add` of THIS file fails
+        code, out, exc = sandbox.run_cli(["update", "--patch", "--no-fetch"], pr.dir, pr.env())
+        evs = [classify(a) for a in pr.fake_log()]
+    case = {"kind": "add-fails", "file": fname, "trace": ["add" if e.startswith("add:") else e for e in evs], "exit": code}
+    k = next((i for i, e in enumerate(evs) if e.startswith("add:")), None)
+    if k is None:
+        return case, None
+    after = [e for e in evs[k + 1:] if not e.startswith("add:")]
+    if after or code == 0:
+        return case, "`git add` failed for the configured file %r but the run went on with %r (exit %s)" % (fname, after, code)
+    return case, None
+
+
 def _impl(op):
     res, _obs = run_impl(op["_sc"])
     return res
@@ -308,6 +332,11 @@ def run(chk, driver, tier):
         chk.oracle_case({"scenario": sc, "trace": res["trace"], "exit": res["exit"], "args": obs["args"]}, oracle(sc, res, obs))
     it = iter(impl_res)
     chk.correspond(ops, lambda op: next(it), driver)
+    # a failing `add` stops the run whatever the configured file is called (file names that echo VCS messages included)
+    for fname in ["notes.txt", "already tracked!.txt", "docs/already tracked! (old).md", "error: pathspec.txt", "returned non-zero exit status 1.txt"]:
+        case, verdict = add_failure_case(fname)
+        chk.count("add_fails")
+        chk.oracle_case(case, verdict)
     return []
 
 
